@@ -330,7 +330,9 @@ PROPS['C07']['explanation'] += (' THE SEARCH AT INDEX LEVEL (Model/SearchC.v, Pr
     'children have non-empty prefixes (PNE; C07_wellformed_trees_have_nonempty_prefixes: every wf tree) and every well-formed part list they return exactly what the functional operations compute; C07_index_level_router_insert / _delete: '
     'for every history and every template string the router-level calls over the checked parser and the checked operations are the functional ones, so (C07_insert_delete_never_panic_at_index_level) never Panic and never Fuel. '
     'Tie: the checker evaluates these too from every real pre-state of an insert or delete and compares result, tree and flags with the crate (IndexOps). '
-    'Remaining partial: the Display/Debug code and `Router::new` (17 `unwrap`s on distinct built-in names) are covered by correspondence under catch_unwind only.')
+    'THE PRINTER AND Router::new: C07_display_never_panics (Model/DisplayC.v, Proofs/DisplayCP.v, closed) - the tree printer with its one piece of arithmetic, the counter of children still to print (`count -= 1` before each child of the seven lists), '
+    'as an explicit subtraction that can return Panic equals the functional printer on EVERY tree (no precondition); C07_router_new_unwraps_succeed - the `constraint::<T>().unwrap()` calls of Router::new, replayed on the model in the order and with the names '
+    'regenerated from src/router.rs and src/constraints.rs on this run, all return Ok. THE INVENTORY (Gen/Sites.v REGENERATED from /repo on this run, Proofs/SitesP.v): C07_every_panic_capable_site_is_accounted_for - every expression of the sources that can panic by itself (index, slice, unwrap/expect, remove/swap_remove/split_at/replace_range/drain, subtraction, division, narrowing cast, panicking macro; 101 of them) equals, in order, a hand-written table naming the checked-model operation or theorem that shows it in range; a new or changed expression breaks this obligation. Remaining partial: the derived Debug impls and the `{:?}`/`{}` formatting machinery of std are outside the model (exercised under catch_unwind only); stack exhaustion and allocation failure are not modelled.')
 for _k, _v in PROPS.items():
     for _lst in ('primary', 'secondary'):
         if ('OpsInsert' in _v[_lst] or 'OpsDelete' in _v[_lst]) and 'IndexOps' not in _v['primary'] + _v['secondary']:
